@@ -11,10 +11,12 @@ SPEC = dict(
     overlays=[],
     harnesses=[],
     mirsmt=[dict(name="wait_for_child_done", crate="libwild", crate_dir="libwild", module="subprocess", function="wait_for_child_done",
+                 features="fork", timeout=2400),
+            dict(name="subprocess_result", kind="cfg", crate="libwild", crate_dir="libwild", module="subprocess", function="subprocess_result",
                  features="fork", timeout=2400)],
-    functions_encoded=["subprocess::wait_for_child_done (MIR after PostAnalysisNormalize)"],
+    functions_encoded=["subprocess::wait_for_child_done (MIR after PostAnalysisNormalize)", "subprocess::subprocess_result (normal-return CFG of the MIR)"],
     bounds="loop-free: all values of fread's result, waitpid's result in {-1, pid}, all 2^32 wait statuses, any pid > 0",
-    outside_bounds="child side (subprocess_result's fork()==0 arm: Linker::run / finalise before inform_parent_done), no-fork mode's main, "
+    outside_bounds="that Linker::run returning Ok means the output is flushed; panics/aborts inside the worker; no-fork mode's main, "
                    "kernel behaviour",
     stubs=["environment models: close/fdopen (opaque), fread (result <= nmemb), waitpid (POSIX contract), WEXITSTATUS/WIFEXITED/WIFSIGNALED/WTERMSIG (glibc definitions)"],
 )
